@@ -12,12 +12,12 @@ section flowfacts
 variable {p : Prog} {bs : List Nat} {env : Env} {a : Assign} {s : VMState} {w : Word} {o : Op}
 
 /-- what the typing says about the instruction at the current position -/
-theorem flow_at (hty : Typing p bs a) (c : Ctx p bs env s w o) {S : STy} (hS : a.get s.codepos = some S) :
+theorem flow_at (hty : TypingW p bs a) (c : Ctx p bs env s w o) {S : STy} (hS : a.get s.codepos = some S) :
     ∃ succs, flow p s.codepos o S = some succs ∧ ∀ x ∈ succs, NextOk a x.1 x.2 := by
   obtain ⟨o', succs, ho', hfl, hs⟩ := hty.closed s.codepos c.pcIn S hS
   rw [ctx_opAt c] at ho'
   cases ho'
-  exact ⟨succs, hfl, fun x hx => (hs x hx).2⟩
+  exact ⟨succs, hfl, hs⟩
 
 variable {S : STy} {succs : List (Nat × STy)} {pc : Nat}
 
@@ -115,7 +115,7 @@ section body
 variable {p : Prog} {bs : List Nat} {env : Env} {a : Assign} {s : VMState} {w : Word} {o : Op}
 
 /-- **every case of the switch** keeps the typing part of the invariant and raises no discipline fault -/
-theorem tbody_ok (hty : Typing p bs a) (c : Ctx p bs env s w o) (hsh : TShape p bs env.len a s o) :
+theorem tbody_ok (hty : TypingW p bs a) (c : Ctx p bs env s w o) (hsh : TShape p bs env.len a s o) :
     TBodyOk p bs env.len a s.codepos (body p env s) := by
   have hop : Op.ofNat? s.oper.op = some o := by rw [c.oop]; exact c.facts.op
   have hlen : -1 ≤ (-1 : Int) ∧ (-1 : Int) ≤ env.len := ⟨by omega, by have := c.tp0; have := c.tpn; omega⟩
@@ -384,7 +384,7 @@ theorem tfinish_ok {s : VMState} (s1 : VMState) (e : Exit) (hcp : s1.codepos = s
 
 /-- **One iteration of the interpreter loop keeps the invariant and raises neither a structural nor a discipline
     fault** (`stackUnderflow`, `tracktoRange`, `textposRange`, `crawlUnderflow`). -/
-theorem tstep_ok (hwf : WF p bs) (hty : Typing p bs a) {s : VMState} (hinv : TInv p bs env a s) :
+theorem tstep_ok (hwf : WF p bs) (hty : TypingW p bs a) {s : VMState} (hinv : TInv p bs env a s) :
     TStepOk p bs env a (step p env s) := by
   obtain ⟨w, o, c, hsh, htsh⟩ := hinv
   have hold := step_ok hwf ⟨w, o, c, hsh⟩
@@ -427,7 +427,7 @@ theorem tinit_inv (hwf : WF p bs) (pos : Int) (h0 : 0 ≤ pos) (hn : pos ≤ env
 
 /-- **no fault but `capRange`, ever**: a run from a state satisfying the invariant ends in no structural fault and in
     none of `stackUnderflow`, `tracktoRange`, `textposRange`, `crawlUnderflow` -/
-theorem trun_ok (hwf : WF p bs) (hty : Typing p bs a) : ∀ (fuel : Nat) (s : VMState), TInv p bs env a s →
+theorem trun_ok (hwf : WF p bs) (hty : TypingW p bs a) : ∀ (fuel : Nat) (s : VMState), TInv p bs env a s →
     ∀ f, (run p env fuel s).1 = .fault f → f.structural = false ∧ disc f = false := by
   intro fuel
   induction fuel with
